@@ -360,6 +360,18 @@ theorem e_store_mailbox (s : Sys) (app : String) (forNp : Bool) (started total :
         simp [bindArgs, evalArg, AppNamespace__summarize_mailbox_and_store__insert_mailboxes_0, List.lookup, SV.toCell,
           waitSV, ofOptTime])
 
+theorem e_log_client_version (s : Sys) (app side : String) (t : Time) (impl version : Option String) :
+    EntryUWrite "AppNamespace_log_client_version__insert_client_versions_0"
+      AppNamespace_log_client_version__insert_client_versions_0
+      [.str app, .str side, .int t, optStrSV impl, optStrSV version] s := by
+  refine ⟨by simp [GenSql.all, List.lookup], rfl,
+    { s.udb with clients := s.udb.clients ++ [⟨app, side, t, impl, version⟩] },
+    by simp [stmtSem, logClientStmt, Sys.modUdb], ?_⟩
+  exact (log_client_version_insert s.udb app side t impl version).pos
+    (by cases impl <;> cases version <;>
+        simp [bindArgs, evalArg, AppNamespace_log_client_version__insert_client_versions_0, List.lookup, SV.toCell,
+          optStrSV, ofOptStr])
+
 /-! ### coverage -/
 
 /-- the statement names that have an entry theorem above -/
@@ -378,6 +390,7 @@ def tiedNames : List String := [
   "Mailbox_close__delete_nameplate_sides_0", "Mailbox_close__delete_nameplates_0", "Mailbox_close__delete_messages_0",
   "Mailbox_close__delete_mailbox_sides_0", "Mailbox_close__delete_mailboxes_0",
   "AppNamespace__summarize_nameplate_and_store__insert_nameplates_0",
-  "AppNamespace__summarize_mailbox_and_store__insert_mailboxes_0"]
+  "AppNamespace__summarize_mailbox_and_store__insert_mailboxes_0",
+  "AppNamespace_log_client_version__insert_client_versions_0"]
 
 end Wormhole.Tie
